@@ -27,7 +27,7 @@ MANIFEST = dict(
          "resistance is assumed (injective H).",
     technique="Lean 4 proof for naming/ordering + cross-process differential check against the model's answers",
 )
-PROP_FILES = ["HtmlVerif/Props/C18.lean", "HtmlVerif/Props/Consts.lean"]
+PROP_FILES = ["HtmlVerif/Props/C18.lean", "HtmlVerif/Props/ConstsHead.lean"]
 WORKER = os.path.join(os.path.dirname(os.path.dirname(os.path.abspath(__file__))), "c18_worker.py")
 
 
